@@ -15,6 +15,7 @@ pub mod c10;
 pub mod smooth;
 pub mod classify;
 pub mod sinks;
+pub mod conv;
 
 pub fn lookup(id: &str) -> Option<Prop> {
     Some(match id {
@@ -30,6 +31,7 @@ pub fn lookup(id: &str) -> Option<Prop> {
         "C08" => Prop { header: classify::H08, generate: classify::gen08, exec: classify::exec08 },
         "C09" => Prop { header: classify::H09, generate: classify::gen09, exec: classify::exec09 },
         "C11" => Prop { header: sinks::HEADER, generate: sinks::generate, exec: sinks::exec },
+        "C05" => Prop { header: conv::HEADER, generate: conv::generate, exec: conv::exec },
         _ => return None,
     })
 }
